@@ -41,7 +41,7 @@ TrReset ==
   /\ Is("reset") /\ Adv
   /\ sess' = [k \in Key |-> NoSess] /\ trk' = [c \in Call |-> NoTrk] /\ cst' = [c \in Call |-> "idle"]
   /\ wch' = [c \in Call |-> "cur"] /\ prevOpen' = [c \in Call |-> "none"] /\ ret' = [c \in Call |-> ""]
-  /\ peers' = [p \in Peer |-> NoPeer] /\ lst' = [x \in LCall |-> "idle"] /\ lusurp' = [x \in LCall |-> FALSE]
+  /\ peers' = [p \in Peer |-> NoPeer] /\ lst' = [x \in LCall |-> "idle"] /\ lusurp' = [x \in LCall |-> FALSE] /\ lx' = [x \in LCall |-> [nonce |-> 0, repl |-> FALSE]]
   /\ lsent' = [x \in LCall |-> {}] /\ lwch' = [x \in LCall |-> "cur"] /\ lstale' = [x \in LCall |-> FALSE]
   /\ lret' = [x \in LCall |-> ""] /\ badDeliv' = FALSE /\ dropFlag' = [c \in Call |-> FALSE] /\ badReq' = FALSE
   /\ abs' = [k \in Key |-> 0] /\ outs' = [c \in Call |-> <<>>] /\ louts' = [x \in LCall |-> <<>>]
